@@ -532,8 +532,8 @@ const LITERALS: [&str; 20] = ["0", "1", "-1", "0.5", "-0.5", "255.996", "1e3", "
 
 fn program_strategy(stratum: Option<u16>) -> BoxedStrategy<Case> {
     let step = (pick(WOP_TABLE.len()), ing(), any::<u128>(), any::<u128>());
-    (layout_or(stratum), ing(), proptest::collection::vec(step, 0..=MAX_STEPS), pick(LITERALS.len()), proptest::collection::vec(0u8..10, 0..30))
-        .prop_map(|(lay, ia, steps, lit, digits)| {
+    (layout_or(stratum), ing(), proptest::collection::vec(step, 0..=MAX_STEPS), pick(LITERALS.len()), proptest::collection::vec(0u8..10, 0..30), any::<u128>())
+        .prop_map(|(lay, ia, steps, lit, digits, lsel)| {
             let l = L::from_idx(lay as usize);
             let il = int_l(l);
             let mut prog = Vec::new();
@@ -597,6 +597,13 @@ fn program_strategy(stratum: Option<u16>) -> BoxedStrategy<Case> {
             let s = if lit == 0 && !digits.is_empty() {
                 let d: String = digits.iter().map(|d| (b'0' + d % 2) as char).collect();
                 format!("{}.{}", &d[..d.len() / 2], &d[d.len() / 2..])
+            } else if lit == 1 {
+                // decimal digit groups on a limb boundary of the parser's accumulator (see vcore::lit)
+                format!("{}{}.{}", ["", "-"][(lsel >> 100) as usize & 1], (lsel >> 104) % 3, vcore::lit::limb_carry_fraction(lsel, &digits, 30))
+            } else if lit == 2 && !digits.is_empty() {
+                // the current layout's value written out in decimal with a random tail
+                let d: String = digits.iter().map(|d| (b'0' + d) as char).collect();
+                format!("0.{}", d)
             } else {
                 LITERALS[lit].to_string()
             };
